@@ -76,7 +76,7 @@ def run(ctx):
     # clauses shared with other properties: TTLs only age (the cache's lifetime and hit rules), what a truncated relay may drop
     ctx.include("C06", rules=("R1", "R2", "R3", "R6"))
     ctx.include("C04", rules=("R3",))
-    ctx.include("C14", rules=("R10",))
+    ctx.include("C14", rules=("R10", "R3", "R4"))
     # ---------------- R1: reply assembled from (query, upstream reply)
     cands = fn_with_sig(P, ["DnsMessage", "DNSPkt"], "DNSPkt")
     n_r1 = 0
@@ -129,6 +129,9 @@ def run(ctx):
             t = T.rvalue(s["rv"], bb, idx)
             fields = dict(t[3])
             where = ctx.where(body, s["sp"])
+            n += 1
+            ctx.check(is_const(norm(fields.get("tc", ("unknown",))), False), "R1", "error-reply:tc=false", where,
+                      "an error reply omits nothing: TC must be the literal false (is %s), not whatever the query's header said" % show(norm(fields.get("tc", ("unknown",))))[:60])
             n += 1
             ed = norm(fields.get("edns", ("unknown",)))
             ctx.check(ed[0] == "agg" and ed[2] == "Some", "R1", "error-reply:edns-always-present", where,
